@@ -196,6 +196,7 @@ pub struct Engine {
     pub tier: Tier,
     pub seed: u64,
     pub verif_dir: String,
+    pub out_dir: String,
     pub evidence: Mutex<Evidence>,
     pub violations: Mutex<Vec<Violation>>,
     pub findings: Findings,
@@ -224,12 +225,13 @@ fn mix_seed(seed: u64, worker: u64, salt: u64) -> u64 {
 }
 
 impl Engine {
-    pub fn new(prop_id: &str, tier: Tier, seed: u64, verif_dir: &str) -> Self {
+    pub fn new(prop_id: &str, tier: Tier, seed: u64, verif_dir: &str, out_dir: &str) -> Self {
         Engine {
             prop_id: prop_id.to_string(),
             tier,
             seed,
             verif_dir: verif_dir.to_string(),
+            out_dir: out_dir.to_string(),
             evidence: Mutex::new(Evidence::default()),
             violations: Mutex::new(Vec::new()),
             findings: Findings::load(verif_dir),
@@ -258,7 +260,7 @@ impl Engine {
     }
 
     pub fn write_replay<P: Prop + ?Sized>(&self, p: &P, tape: &[u32], msg: &str, tag: &str) -> String {
-        let dir = format!("{}/replays/found", self.verif_dir);
+        let dir = format!("{}/replays/found", self.out_dir);
         let _ = std::fs::create_dir_all(&dir);
         let path = format!("{}/{}_{}_s{}_{}.json", dir, p.id(), self.tier.name(), self.seed, tag);
         let decoded = catch(|| p.describe(tape)).unwrap_or(json!("<describe panicked>"));
@@ -275,6 +277,15 @@ impl Engine {
     }
 
     pub fn report_violation<P: Prop + ?Sized>(&self, p: &P, tape: &[u32], msg: &str, tag: &str) {
+        {
+            // one line per distinct failure message (16 workers usually shrink to the same case)
+            let v = self.violations.lock().unwrap();
+            if v.iter().any(|x| x.msg == msg) || v.len() >= 8 {
+                drop(v);
+                self.violations.lock().unwrap().push(Violation { msg: msg.to_string(), tape: tape.to_vec(), replay: String::new() });
+                return;
+            }
+        }
         let path = self.write_replay(p, tape, msg, tag);
         println!("VIOLATION property={} replay={}", p.id(), path);
         println!("  detail: {}", msg.lines().next().unwrap_or(""));
@@ -482,7 +493,7 @@ impl Engine {
             "wall_s": self.start.elapsed().as_secs_f64(),
             "violations": v.len(),
         });
-        let dir = format!("{}/evidence", self.verif_dir);
+        let dir = format!("{}/evidence", self.out_dir);
         let _ = std::fs::create_dir_all(&dir);
         let path = format!("{}/{}.json", dir, p.id());
         std::fs::write(&path, serde_json::to_string_pretty(&out).unwrap()).expect("write evidence");
